@@ -2,7 +2,7 @@
 From Coq Require Import Reals QArith Qround Sorting.Permutation PrimFloat.
 From Flocq Require Import Raux.
 From EsVerif.Common Require Import Base.
-From EsVerif.C13 Require Import Model Spec Proofs CountProofs ModelR LogBinProofs FloatModel FloatProofs Exec.
+From EsVerif.C13 Require Import Model Spec Proofs CountProofs ModelR LogBinProofs FloatModel FloatProofs Exec ExecProofs.
 
 (* ---- ids.  [root] and [choose] are the unmodelled floating-point choices of the JHU code; the
    hypotheses (a root triangle is found, a child number is 0..3, some child always accepts the
@@ -51,6 +51,12 @@ Proof. exact concrete_id_range. Qed.
 Theorem C13_concrete_hierarchy : forall eps save v d, accepted eps save v (S d) ->
   (lookupF eps save (S d) v / 4 = lookupF eps save d v)%Z.
 Proof. exact concrete_hierarchy. Qed.
+
+(* the single-pass evaluation used by the generated case files (it carries the triangle along, as the
+   C++ does) is the instance of Model.lookup the theorems above are about *)
+Theorem C13_concrete_fast_evaluation : forall eps save depth v, (8 <= rootF eps v < 16)%Z ->
+  lookupF_fast eps save depth v = lookupF eps save depth v.
+Proof. exact lookupF_fast_correct. Qed.
 
 (* non-vacuity on numbers of the real implementation: (ra, dec) = (10, 20); x, y, z as updateXYZ
    computes them; the ids are those esutil returns at depths 0..4 *)
@@ -149,6 +155,25 @@ Theorem C13_any_reverse_index_layout : forall nbin rev rev' minid maxid ids2 bin
   (0 <= k < nbin)%Z ->
   zget (cbincount nbin rev minid maxid binof covers) k = zget (cbincount nbin rev' minid maxid binof covers) k.
 Proof. exact cbincount_any_rev. Qed.
+
+(* what the verdict of a bincount case means (Exec.bc_ok, evaluated on the counts the real bincount
+   returned, [o] from the plain call and [rest] from the calls with precomputed ids / reverse indices /
+   window, and on the brute-force classification of ALL pairs by the independent oracle):
+   per bin, #pairs determined to be in bin k <= count <= that + #pairs within 1e-9 relative of an edge
+   of bin k; all calls agree; the hypotheses of C13_bincount hold on the case *)
+Theorem C13_bincount_checker : forall nbin minid maxid runs ids2 covers pairs o rest,
+  (0 <= nbin)%Z ->
+  bc_ok false nbin minid maxid runs ids2 covers pairs [] (o :: rest) = true ->
+  let binof := binof_def false nbin pairs [] in
+  length o = Z.to_nat nbin
+  /\ (forall k, (0 <= k < nbin)%Z ->
+        (brute binof (length ids2) k 0 (length covers) <= zget o k
+         <= brute binof (length ids2) k 0 (length covers)
+            + amb_count (all_ranges false nbin ids2 covers pairs []) k)%Z)
+  /\ (forall r, In r rest -> r = o)
+  /\ covers_ok nbin (revf runs) minid maxid ids2 binof 0 covers
+  /\ (forall i2, In i2 (zseq 0 (length ids2)) -> in_window minid maxid (zget ids2 i2) = true).
+Proof. exact bc_ok_sound. Qed.
 
 (* ---- bincount, log-bin arithmetic *)
 (* on the exact rationals of the discrete model: floor gives k iff k <= q < k+1; the C cast agrees
